@@ -58,3 +58,47 @@ def float_output_routing(m, t, tier, only=None):
     return [_ob(f'SecFlt-output:non-receivers-get-only-fresh-shares[m={m},t={t}]', func, t0, f'(m,t)=({m},{t}); {len(cases)} receiver sets x values', bad, evals=n,
                 key='SecFlt-output:non-receivers', replay=None if badcase is None else
                 (_replay('float_output_routing', (m, t, tier, badcase)).replace('from sx import mpinst2\nobs = mpinst2.', 'from sx import mpinst3\nobs = mpinst3.')))]
+
+
+def schedule_independence(m, t, no_prss, prog_name, l, k, seed, nsched):
+    """C08 (bounded): one composite program, the SAME inputs and the same protocol randomness, under `nsched` random delivery schedules (per-connection
+    FIFO, random interleaving across connections and with local computation: sx.mp.Net.pump).  Every party must complete under every schedule,
+    obtain the outputs of the baseline schedule (immediate delivery), and leave the network balanced (no message unreceived, no receive unmatched)."""
+    import random as pyrandom
+    from sx.mpinst import _programs, _ob, Ghost
+    func = 'mpyc.runtime.Runtime + mpyc.asyncoro (label-keyed message exchange under delivery schedules)'
+    t0 = time.time()
+    prog_f = _programs()[prog_name](l)
+    results = []; bad = None; nmsg = 0
+    mp.uninstall_symbolic()
+    for s in range(nsched + 1):
+        mp.clear_caches(); mp.install_seeded(seed)
+        sched = None if s == 0 else pyrandom.Random(1000 * seed + s)
+        loop, net, rts = mp.make_parties(m, t, no_prss=no_prss, k=k, schedule=sched)
+        try:
+            res = mp.run_all(loop, rts, lambda rt: prog_f(rt, seed), net=net)
+            outs = [r[0] for r in res]
+            lo = net.leftovers(); nmsg += len(net.sent)
+            if net.pending(): bad = f'schedule {s}: {net.pending()} messages were sent but never delivered although all parties finished'
+            elif lo['unreceived'] or lo['unmatched_receives'] or net.errors: bad = f'schedule {s}: network not balanced: {str(lo)[:200]} {net.errors[:2]}'
+            elif s and outs != results[0]:
+                j = [a != b for a, b in zip(outs, results[0])].index(True)
+                bad = f'schedule {s}: party {j} obtains {str(outs[j])[:150]} but {str(results[0][j])[:150]} under immediate delivery'
+            results.append(outs)
+        except PartyFailure as e:
+            bad = f'schedule {s} ({"immediate delivery" if s == 0 else "random.Random(%d)" % (1000 * seed + s)}): {str(e)[:400]}'
+        finally:
+            loop.close()
+        if bad: break
+    code = None
+    if bad:
+        code = (f"import sys; sys.argv=['replay','--no-log']; sys.path.insert(0, {__import__('lib.common').common.ROOT!r})\n"
+                f"from sx.mpinst3 import schedule_independence\n"
+                f"obs = schedule_independence({m}, {t}, {no_prss}, {prog_name!r}, {l}, {k}, {seed}, {nsched})\n"
+                f"print(obs[0].detail)\nsys.exit(1 if obs[0].status == 'refuted' else 0)\n")
+    o = _ob(f'schedules:{prog_name}[m={m},t={t},prss={not no_prss},seed={seed}]', func, t0,
+            f'(m,t)=({m},{t}); program {prog_name}; {nsched} random delivery schedules + immediate delivery; frames delivered whole', bad,
+            evals=max(1, len(results)), key=f'schedules:{prog_name}', replay=code)
+    o.engine = 'symx-mp-concrete'; o.backend = 'cpython'
+    o.detail = (o.detail or '') + f' schedules={len(results)} messages={nmsg}'
+    return [o]
